@@ -127,9 +127,16 @@ def run_cases(mod, cases, ctx):
             acc.viols.append(Viol(case, 'horizon', 'timeout', str(exc)))
         except Exception as exc:   # escaped the oracle: propka crashed, or the harness did
             acc.n += 1
-            acc.viols.append(Viol(case, 'crash', exc_key(exc),
-                                  '%s: %s' % (type(exc).__name__, str(exc)[:200]),
-                                  detail=traceback.format_exc()[-1500:]))
+            tb = traceback.extract_tb(exc.__traceback__)
+            last = tb[-1].filename if tb else ''
+            in_propka = (os.sep + 'propka' + os.sep in last) and (os.sep + 'pkmc' + os.sep not in last)
+            if in_propka or any(os.sep + 'propka' + os.sep in fr.filename for fr in tb[-3:]):
+                acc.viols.append(Viol(case, 'crash', exc_key(exc),
+                                      '%s: %s' % (type(exc).__name__, str(exc)[:200]),
+                                      detail=traceback.format_exc()[-1500:]))
+            else:   # raised by the harness itself (e.g. an internal name it relies on is gone): never a verdict on the property
+                acc.extra['harness_errors'] += 1
+                acc.notes.append('HARNESS: ' + traceback.format_exc()[-1200:])
     return acc
 
 
@@ -303,6 +310,10 @@ def explore(mod, tier, seed, nproc):
     for tbk in died:
         lines.append('HARNESS ERROR: shard died:\n' + tbk)
         exit_code = 2
+    if agg.extra.get('harness_errors'):
+        lines.append('HARNESS ERROR: %d case(s) raised inside the harness, e.g.\n%s' % (
+            agg.extra['harness_errors'], next((n for n in agg.notes if n.startswith('HARNESS')), '')))
+        exit_code = exit_code or 2
     for ck, v, cnt in unconfirmed:
         lines.append('NOTE: candidate %s (%d cases) did not reproduce in a fresh process; '
                      'treated as cross-run state leak (see C03), not reported here' % (ck, cnt))
